@@ -217,6 +217,22 @@ impl vstd::std_specs::cmp::PartialOrdSpecImpl for FeelDate {
     ] + DURATION_FMT_PARTS + [FROM_CAPTURES],
 }
 
+# FeelDate comparison helpers: the calendar order, always defined
+_DLT = 'date_lt(self.0 as int, self.1 as int, self.2 as int, other.0 as int, other.1 as int, other.2 as int)'
+_DGT = 'date_lt(other.0 as int, other.1 as int, other.2 as int, self.0 as int, self.1 as int, self.2 as int)'
+_DEQ = '(self.0 == other.0 && self.1 == other.1 && self.2 == other.2)'
+for (_n, _e) in [('equal', _DEQ), ('before', _DLT), ('before_or_equal', '(%s || %s)' % (_DLT, _DEQ)), ('after', _DGT), ('after_or_equal', '(%s || %s)' % (_DGT, _DEQ))]:
+    UNIT['parts'].append(dfn('impl FeelDate::fn ' + _n, 'FeelDate::' + _n, ret='r', props=['C15', 'C09'], auto_props=['C15', 'C09', 'C05'],
+                             ensures=[('calendar_order', 'r == Some(%s)' % _e)]))
+def _rel(x, y, strict):
+    lt = 'date_lt(%s.0 as int, %s.1 as int, %s.2 as int, %s.0 as int, %s.1 as int, %s.2 as int)' % (x, x, x, y, y, y)
+    eq = '(%s.0 == %s.0 && %s.1 == %s.1 && %s.2 == %s.2)' % (x, y, x, y, x, y)
+    return lt if strict else '(%s || %s)' % (lt, eq)
+UNIT['parts'].append(dfn('impl FeelDate::fn between', 'FeelDate::between', ret='r', props=['C15', 'C09'], auto_props=['C15', 'C09', 'C05'],
+    ensures=[('agrees_with_comparisons',
+              'r == Some((if left_closed { %s } else { %s }) && (if right_closed { %s } else { %s }))' % (
+                  _rel('left', 'self', False), _rel('left', 'self', True), _rel('self', 'right', False), _rel('self', 'right', True)))]))
+
 NOT_DECIDED = {
     'C15': [
         'instants on the UTC time line: date-time comparison/subtraction, zone rules, weekday go through chrono (A-chrono) and are not modelled',
